@@ -35,6 +35,10 @@ def _ops(t):
     if len(sn) >= 2:
         ops["expire"] = lambda h: _tx(h, lambda tx: tx.expire_snapshots(sn[-1]["timestamp_ms"]))
         ops["delsnap"] = lambda h: h.snapshot_manager.delete_snapshot(sn[0]["snapshot_id"])
+        # ONE transaction doing two things: its crash images must be the state before or after BOTH
+        ops["append+expire"] = lambda h: _tx(h, lambda tx: (tx.append_data(tablekit.rows(1, start=700, tag="ae")), tx.expire_snapshots(sn[-1]["timestamp_ms"])))
+    if paths:
+        ops["delete+append"] = lambda h: _tx(h, lambda tx: (tx.delete_files(["/" + paths[0]]), tx.append_data(tablekit.rows(1, start=800, tag="da"))))
     ops["gc"] = lambda h: h.garbage_collect(grace_period_ms=0)
     return ops
 
@@ -211,7 +215,7 @@ def run(ctx, model_ok):
     try:
         priors = [1, 3] if not ctx.thorough else [0, 1, 2, 3, 4, 6]
         _one(ctx, rep, "create", 0, base)
-        for op in ("append", "delfiles", "expire", "delsnap", "gc"):
+        for op in ("append", "delfiles", "expire", "delsnap", "gc", "append+expire", "delete+append"):
             for n in priors:
                 _one(ctx, rep, op, n, base)
         rep.exhaustive = True
